@@ -760,6 +760,51 @@ func loadersCase(n int, compressible bool, mk func(kind, detail string) *hx.Viol
 
 // loadersRefusableCases (shared by C12 and C18): see the comment inside.
 func loadersRefusableCases(c *hx.Checker) {
+	// a zip member whose stored bytes do not match its checksum (one flipped bit inside a weight): refused, never loaded
+	// with another weight
+	c.Case(hx.CaseInfo{ID: "loaders/zip-checksum-mismatch", Tags: []string{"loaders", "zip-checksum"}, NonTrivial: true}, func() (v *hx.Violation) {
+		mk := func(kind, detail string) *hx.Violation {
+			return &hx.Violation{Kind: kind, Detail: detail, Replay: map[string]any{"replay_kind": "loaders-zip-crc"}}
+		}
+		defer func() {
+			if p := recover(); p != nil {
+				v = mk("panic", fmt.Sprintf("%v :: %s", p, firstLines(string(debug.Stack()), 12)))
+			}
+		}()
+		w := recFill(ref.F32, []int{64}, 3)
+		mb := hx.Marshal(hx.Model(&onnx.GraphProto{Name: "g", Initializer: []*onnx.TensorProto{hx.TensorProto("w", w, "raw")}, Output: []*onnx.ValueInfoProto{hx.ValueInfoNoShape("w")}}, 13))
+		for _, method := range []uint16{zip.Store, zip.Deflate} {
+			var buf bytes.Buffer
+			zw := zip.NewWriter(&buf)
+			fw, _ := zw.CreateHeader(&zip.FileHeader{Name: "m.onnx", Method: method})
+			fw.Write(mb)
+			zw.Close()
+			zb := buf.Bytes()
+			if method == zip.Store {
+				// the member's bytes sit verbatim in the archive: flip one bit in the middle of the weight payload
+				i := bytes.Index(zb, mb)
+				if i < 0 {
+					hx.HarnessError("stored member not found in the archive")
+				}
+				zb = append([]byte{}, zb...)
+				zb[i+len(mb)-40] ^= 0x10
+			} else {
+				continue // a flipped bit in a deflate stream mostly breaks the stream itself: covered by the truncation cases
+			}
+			zr, err := zip.NewReader(bytes.NewReader(zb), int64(len(zb)))
+			if err != nil {
+				hx.HarnessError("zip reader: %v", err)
+			}
+			m, lerr := gonnx.NewModelFromZipFile(zr.File[0])
+			if lerr == nil && m == nil {
+				return mk("nil-output", "NewModelFromZipFile returned neither a model nor an error")
+			}
+			if lerr == nil {
+				return mk("not-refused", "NewModelFromZipFile loaded a member whose bytes do not match its CRC-32")
+			}
+		}
+		return hx.OK("loaders-refuse-damaged-files")
+	})
 	// files that decode but must be refused (payload that does not match its dims, unsupported opset, both) through all
 	// three loaders: each returns an error, none a nil model without one, and they agree
 	{
